@@ -174,3 +174,26 @@ Theorem C16_reported_point_is_the_only_common_point :
   intersection (fpt a1x a1y) (fpt a2x a2y) (fpt b1x b1y) (fpt b2x b2y) = LPoint (fpt ix iy) ->
   forall x y, on_both a1x a1y a2x a2y b1x b1y b2x b2y x y -> x == ix /\ y == iy.
 Proof. exact intersection_point_unique. Qed.
+
+(** last clause, the TYPING of coincident pieces, exact instance: overlapping segments of
+    different operands whose left end points coincide (every coincident piece meets its twin
+    this way once the overlap has been cut at its ends): answer 2, the second is typed
+    [NonContributing], the first [SameTransition] if the in/out flags agree and
+    [DifferentTransition] otherwise, also when the longer one is cut in the same call. *)
+From GB Require Import PairTypes.
+Theorem C16_coincident_pieces_are_typed :
+  forall (cfg : Outcome.config) (s s' : sq NQ) (se1 se2 other1 other2 : eid) (code : nat) (ia ib : pt NQ)
+         (p1x p1y o1x o1y p2x p2y o2x o2y : Q),
+  sqinv NQ s -> mapped NQ (sq_st s) se1 -> mapped NQ (sq_st s) se2 ->
+  e_other (getE (sq_st s) se1) = Some other1 -> e_other (getE (sq_st s) se2) = Some other2 ->
+  e_point (getE (sq_st s) se1) = fpt p1x p1y -> e_point (getE (sq_st s) other1) = fpt o1x o1y ->
+  e_point (getE (sq_st s) se2) = fpt p2x p2y -> e_point (getE (sq_st s) other2) = fpt o2x o2y ->
+  e_is_subject (getE (sq_st s) se1) <> e_is_subject (getE (sq_st s) se2) ->
+  intersection (fpt p1x p1y) (fpt o1x o1y) (fpt p2x p2y) (fpt o2x o2y) = LOverlap ia ib ->
+  qeqp p1x p1y p2x p2y ->
+  possible_intersection cfg s se1 se2 = Outcome.Ok (s', code) ->
+  code = 2%nat /\
+  e_edge_type (getE (sq_st s') se2) = NonContributing /\
+  e_edge_type (getE (sq_st s') se1) =
+    (if Bool.eqb (e_in_out (getE (sq_st s) se1)) (e_in_out (getE (sq_st s) se2)) then SameTransition else DifferentTransition).
+Proof. exact pi_overlap_types. Qed.
